@@ -1,10 +1,10 @@
 #!/bin/bash
-# Offline setup: verify interpreter and imports, create output dirs, warm numba's cache dir.
+# Offline setup: verify interpreter and imports, create output dirs. numba's on-disk cache is the one shipped
+# next to the installed qha package (a private shared cache written concurrently by 16 workers got corrupted once).
 set -e
 cd "$(dirname "$0")"
 mkdir -p evidence replays
-export PYTHONDONTWRITEBYTECODE=1 PYTHONPATH=/verif NUMBA_CACHE_DIR=/dev/shm/cij-verif-numba
-mkdir -p "$NUMBA_CACHE_DIR" 2>/dev/null || true
+export PYTHONDONTWRITEBYTECODE=1 PYTHONPATH=/verif
 /venv/bin/python -B -W ignore - <<'PY'
 import sys
 sys.path.insert(0, "/repo")
